@@ -376,6 +376,10 @@ class ColorService:
                 extract_colors_from_attribute(
                     getattr(component, "text_background_color", None)
                 )
+                for side in ("left", "right", "top", "bottom"):
+                    extract_colors_from_attribute(
+                        getattr(component, f"border_color_{side}", None)
+                    )
 
         # Collect colors from column headers
         if document.rtf_column_header:
@@ -391,6 +395,10 @@ class ColorService:
                             extract_colors_from_attribute(
                                 getattr(header, "text_background_color", None)
                             )
+                            for side in ("left", "right", "top", "bottom"):
+                                extract_colors_from_attribute(
+                                    getattr(header, f"border_color_{side}", None)
+                                )
             else:
                 # Flat format
                 for header in headers:
@@ -401,6 +409,10 @@ class ColorService:
                         extract_colors_from_attribute(
                             getattr(header, "text_background_color", None)
                         )
+                        for side in ("left", "right", "top", "bottom"):
+                            extract_colors_from_attribute(
+                                getattr(header, f"border_color_{side}", None)
+                            )
 
         return list(used_colors)
 
